@@ -92,9 +92,23 @@ fn run<F: Elem>(case: &NormCase, obs: &mut Obs) {
             continue;
         }
         obs.class_if(yr.iter().filter(|v| **v != 0.0).count() == 1, "row_with_single_non_zero");
+        obs.class_if(nrm < F::MIN_POS, "row_norm_subnormal");
+        obs.class_if(nrm > 0.0 && nrm < 1.0 / F::MAX, "reciprocal_of_row_norm_overflows");
+        // "keeps all output finite" holds for every finite input row, whatever its magnitude
         if !obs.ensure(zr.iter().all(|v| v.is_finite()), "norm:non-finite-output", || {
-            format!("row {i} = {:?} (norm {nrm}) is mapped to {:?}", yr, zr)
+            format!("row {i} = {:?} ({:?} norm {nrm:e}) is mapped to {:?}", yr, case.norm, zr)
         }) {
+            continue;
+        }
+        // Unit norm is demanded where the norm is representable by the element type's arithmetic.
+        // L1 and Max norms of any finite row are (sums / maxima of subnormals are exact, the quotient
+        // of two exact operands is correctly rounded and lies in the normal range), so they are judged
+        // down to the smallest subnormal with the ordinary tolerance. The L2 norm goes through the
+        // squares: below sum(y²) = 8·MIN_POSITIVE the squares underflow (each loses up to half a
+        // subnormal spacing, relative error > eps; the sum reaches exactly 0 for subnormal rows, which
+        // linfa then treats like a zero row) — there only finiteness is demanded.
+        if case.norm == NormKind::L2 && yr.iter().map(|v| v * v).sum::<f64>() < 8.0 * F::MIN_POS {
+            obs.class("l2_squares_underflow_unit_norm_not_judged");
             continue;
         }
         let zn = norm_of(case.norm, zr);
@@ -116,6 +130,7 @@ fn run<F: Elem>(case: &NormCase, obs: &mut Obs) {
     obs.class_if(zero_rows > 0, "has_zero_row");
     obs.class_if(zero_rows == m && m > 0, "only_zero_rows");
     obs.class_if(c.y.iter().flatten().any(|v| *v != 0.0 && v.abs() < 1e-4), "has_tiny_entries");
+    obs.class_if(c.y.iter().flatten().any(|v| *v != 0.0 && v.abs() < F::MIN_POS), "has_subnormal_entries");
     obs.class_if(c.y.iter().flatten().any(|v| v.abs() > 1e4), "has_huge_entries");
     obs.nontrivial_if(zero_rows > 0 || m > 0);
     let exact = |_: usize, _: usize, a: f64, b: f64| (a.is_nan() && b.is_nan()) || a.to_bits() == b.to_bits();
